@@ -272,7 +272,28 @@ def publish (L : Lister) (fs : FS) (jobURI : URI) (pub : Published) : FS × Bool
 
 /-- where `finishSnapshotAsync` writes the job snapshot of checkpoint `id`:
 `<checkpointsPath>/job-<pathSegment id>.snapshot`, a working-storage file -/
-def jobURI (id : Nat) : URI := ⟨"", s!"job:{id}"⟩
+def jobURI (id : Nat) : URI := ⟨"job:", Nat.repr id⟩
+
+/-- `checkpointIDFromFilePath`: the checkpoint id a file name encodes, if it is a job snapshot file name -/
+def jobIdOf (u : URI) : Option Nat := if u.dir = "job:" then u.base.toNat? else none
+
+/-- the highest checkpoint id among the job snapshot files that are in the job's file store (0 if there is none):
+the loop over `fileStore.List()` in the savepoint branch of `Store.LoadCheckpoint` -/
+def newestLocalId : FS → Nat
+  | [] => 0
+  | (.work u, _) :: r =>
+    match jobIdOf u with
+    | some id => max id (newestLocalId r)
+    | none => newestLocalId r
+  | _ :: r => newestLocalId r
+
+/-- `Store.LoadCheckpoint` with a savepoint URI, including the store it leaves: the loaded snapshot is the completed
+one and the id counter is `max(savepoint id, newest job snapshot id still in the file store)` (D49: job snapshots
+written after the savepoint may still be there, their ids are not handed out again) -/
+def startStore (L : Lister) (fs : FS) (sid : Nat) : FS × Option (JobSnap × Store) :=
+  match loadFromSavepoint L fs sid with
+  | (fs', some s) => (fs', some (s, { pending := none, ckptId := max s.id (newestLocalId fs') }))
+  | (fs', none) => (fs', none)
 
 /-- removal of the obsolete job snapshot files after a publication: the paths are recomputed from the obsolete
 ids (`filepath.Join(checkpointsPath, "job-"+pathSegment(id)+".snapshot")`), whatever file the snapshot was loaded
